@@ -89,7 +89,7 @@ theorem forceLoop_sv {frc : Closure → MSt → Res PVal × MSt} (hf : FrcSV c p
 
 theorem frcSV_forceAll (hac : Acyclic c.frags rank) (hfr : FragsOK c pv) :
     FrcSV c pv rank F (forceAll c alt0 F) :=
-  fun cl j mst hwit => forceLoop_sv (fun cl j mst hw => force_sv hac hfr cl j hw mst) j F (.deferred cl) mst (.deferred hwit)
+  fun cl j mst hwit => forceLoop_sv (fun cl j mst hw => force_sv hac hfr cl j hw mst) j (F + 2) (.deferred cl) mst (.deferred hwit)
 
 /-- `m[k] = v'` keeps the relation when `v'` stands for whatever the old value stood for -/
 theorem svf_setF {k : String} {v v' : PVal} (hvv : ∀ j, SV c pv rank F v j → SV c pv rank F v' j) :
